@@ -636,7 +636,8 @@ def render_item(relpath, kind, name, opts, pre_lines, log):
         pre.append('#[derive(' + ', '.join(opts['derive'].split(',')) + ')]')
     out = ('\n'.join(pre) + '\n' if pre else '') + text
     meta = dict(src_file=relpath, src_start=src_start, src_end=src_end, sha256=sha,
-                dropped_attrs=dropped, fields_pruned=pruned)
+                dropped_attrs=dropped, fields_pruned=pruned, source_name=name.split('::')[-1],
+                emitted_name=opts.get('name') or name.split('::')[-1])
     return out, meta
 
 
